@@ -1,21 +1,29 @@
 #!/venv/bin/python
-"""Apply a patch to /repo's working tree, run checks, undo.  usage: mutant_run.py <patch> <ID>[,<ID>...] [tier] [--tests]"""
-import subprocess, sys, os, time
-patch = os.path.abspath(sys.argv[1]); ids = sys.argv[2].split(','); tier = sys.argv[3] if len(sys.argv) > 3 and not sys.argv[3].startswith('--') else 'quick'
-dirty = subprocess.run(['git', '-C', '/repo', 'status', '--porcelain', '--untracked-files=no'], capture_output=True, text=True).stdout.strip()
-if dirty:
-    print('refusing: /repo has uncommitted changes:\n' + dirty); sys.exit(2)
-r = subprocess.run(['git', '-C', '/repo', 'apply', patch])
-if r.returncode: sys.exit(2)
+"""Try a patch against the checks WITHOUT touching /repo: the working tree of /repo is copied to a scratch
+directory under /dev/shm, the patch is applied there and the checks are pointed at the copy (VERIF_REPO);
+evidence and replay files of these trial runs go to a scratch directory too.
+usage: mutant_run.py <patch> <ID>[,<ID>...] [quick|thorough] [--tests] [--keep-replays DIR]"""
+import os, shutil, subprocess, sys, tempfile, time
+patch = os.path.abspath(sys.argv[1]); ids = sys.argv[2].split(',')
+tier = sys.argv[3] if len(sys.argv) > 3 and not sys.argv[3].startswith('--') else 'quick'
+work = tempfile.mkdtemp(prefix='mutrepo-', dir='/dev/shm')
+repo = os.path.join(work, 'repo')
 try:
+    subprocess.run(['rsync', '-a', '--exclude', '.git', '--exclude', '__pycache__', '--exclude', 'build', '/repo/', repo + '/'], check=True)
+    r = subprocess.run(['patch', '-p1', '-s', '-d', repo, '-i', patch])
+    if r.returncode:
+        print('patch does not apply'); sys.exit(2)
+    env = dict(os.environ, VERIF_REPO=repo, VERIF_EVIDENCE_DIR=os.path.join(work, 'evidence'), VERIF_REPLAY_DIR=os.path.join(work, 'replays'),
+               BASELINE_REPO=repo)
     if '--tests' in sys.argv:
-        subprocess.run(['/verif/tools/baseline.py'])
-    sys.stdout.flush()
+        p = subprocess.run(['/verif/tools/baseline.py'], env=env, capture_output=True, text=True)
+        print(os.path.basename(patch), 'tests:', p.stdout.strip().replace('\n', ' '))
     for i in ids:
         t = time.time()
-        p = subprocess.run(['/verif/check', i, '--tier', tier], capture_output=True, text=True)
-        lines = [l for l in p.stdout.splitlines() if l.startswith(('VIOLATION', 'KNOWN', 'BROKEN', '  first'))]
-        print(f"{os.path.basename(patch)} {i}: exit={p.returncode} {time.time()-t:.0f}s " + ' | '.join(l[:400] for l in lines))
+        p = subprocess.run(['/verif/check', i, '--tier', tier], capture_output=True, text=True, env=env)
+        lines = [l for l in p.stdout.splitlines() if l.startswith(('VIOLATION', 'BROKEN', '  first'))]
+        print(f"{os.path.basename(patch)} {i}: exit={p.returncode} {time.time()-t:.0f}s " + ' | '.join(l[:500] for l in lines))
         if p.returncode not in (0, 1): print(p.stdout[-1500:], p.stderr[-1500:])
+        sys.stdout.flush()
 finally:
-    subprocess.run(['git', '-C', '/repo', 'checkout', '--', '.'])
+    shutil.rmtree(work, ignore_errors=True)
